@@ -1444,6 +1444,7 @@ func (m *MapPollard) Write(w io.Writer) (int, error) {
 		totalBytes += bytes
 
 		copy(leafBuf[:32], v.Hash[:])
+		leafBuf[32] = 0
 		if v.Remember {
 			leafBuf[32] = 1
 		}
